@@ -98,7 +98,8 @@ func LoadFindings() []Finding {
 	sc.Buffer(make([]byte, 1<<20), 1<<24)
 	for sc.Scan() {
 		line := strings.TrimSpace(sc.Text())
-		if line == "" || strings.HasPrefix(line, "#") {
+		if line == "" || strings.HasPrefix(line, "#") || strings.HasPrefix(line, "fixed:") {
+			// "fixed: property=<id> <commit> <what failed>" entries document repaired defects and suppress nothing
 			continue
 		}
 		var fd Finding
